@@ -450,6 +450,24 @@ func propC05(c *Ctx) {
 	c.OnlyIn(l7, "store to sender.sndCwnd", c.FieldStores("tcp.sender", "sndCwnd"), "tcp.newSender", rs+"updateSlowStart", rs+"updateCongestionAvoidance", rs+"HandleRTOExpired", "(*tcp.cubicState).updateSlowStart", "(*tcp.cubicState).Update", "(*tcp.cubicState).HandleRTOExpired", "(*tcp.sender).enterFastRecovery", "(*tcp.sender).leaveFastRecovery", "(*tcp.sender).checkDuplicateAck", "(*tcp.sender).sendData")
 
 	l6 := c.Rule("L6", "typestate: K3 confinement + K7 exact-guard site tables", "lazy retransmission timer state machine", 14)
+	timerTypestateRule(c, l6)
+}
+
+func sortedCopy(ss []string) []string {
+	out := append([]string{}, ss...)
+	for i := 1; i < len(out); i++ {
+		for j := i; j > 0 && out[j] < out[j-1]; j-- {
+			out[j], out[j-1] = out[j-1], out[j]
+		}
+	}
+	return out
+}
+
+// timerTypestateRule: the lazily disabled retransmission timer (timer.go) as a
+// three-state machine. Shared by C05 (L6: a timeout fires when it should) and
+// C02 (W8: the retransmission timer keeps firing while data or a FIN is
+// unacknowledged - no silent stall after the first expiry).
+func timerTypestateRule(c *Ctx, l6 string) {
 	tm := "(*tcp.timer)."
 	c.OnlyIn(l6, "store to timer.state", c.FieldStores("tcp.timer", "state"), tm+"init", tm+"checkExpiration", tm+"disable", tm+"enable")
 	if fn := c.Fn(l6, tm+"checkExpiration"); fn != nil {
@@ -504,14 +522,4 @@ func propC05(c *Ctx) {
 		c.Broken(l6, "anchor-unresolved:(*tcp.timer).init$1", "timer callback closure not found")
 	}
 
-}
-
-func sortedCopy(ss []string) []string {
-	out := append([]string{}, ss...)
-	for i := 1; i < len(out); i++ {
-		for j := i; j > 0 && out[j] < out[j-1]; j-- {
-			out[j], out[j-1] = out[j-1], out[j]
-		}
-	}
-	return out
 }
